@@ -8,7 +8,7 @@ from . import common
 
 ID = 'C10'
 LEVEL = 'exploration'
-BUDGET = {'quick': (1500, 80.0), 'thorough': (60000, 1500.0)}
+BUDGET = {'quick': (8000, 80.0), 'thorough': (100000, 1500.0)}
 CHUNK = 10
 RULE = ('one real stack (1-2 CAs) and 2-3 reference peers; a generated history of 1..40 transfers mixing directions, peers, sizes and outcomes '
         '(clean, j-th frame lost, peer aborts at its j-th received frame, peer falls silent, no acknowledgement, second call on a busy pair, '
